@@ -65,6 +65,10 @@ type chanModel struct {
 	CutStart uint64
 	CutEpoch uint64
 
+	// Frozen channels take no random operations: their exported row count was
+	// placed exactly on / next to an importer batch boundary.
+	Frozen bool
+
 	store *message.ChannelStore
 	cmdNo int
 }
@@ -377,6 +381,9 @@ func (b *builder) snapshotOp(c *chanModel, payload []byte) bool {
 func (b *builder) step() bool {
 	t := b.r.Tape
 	c := b.chans[t.Intn(len(b.chans))]
+	if c.Frozen {
+		return true
+	}
 	bounds := c.boundaries()
 	// benign first: small committed append
 	switch t.Weighted([]int{10, 6, 3, 2, 3, 2, 1, 1}) {
